@@ -40,8 +40,9 @@ import Gozod.Gen.Cert_tmo_1
 import Gozod.Gen.Cert_tmo_2
 import Gozod.Gen.Cert_tmo_3
 import Gozod.Gen.Cert_tmo_9
-import Gozod.Gen.Cert_ipv6_partial
-import Gozod.Gen.Cert_cidrv6_partial
+import Gozod.Model.FormatSpecV6
+import Gozod.Gen.Re_ipv6
+import Gozod.Gen.Re_cidrv6
 namespace Gozod.C20
 open Gozod Gozod.Re
 
@@ -332,11 +333,8 @@ theorem avoids_dot {s : List Nat} (h : avoids [46, 37] s = true) : avoids [46] s
 def c20_ipv6_pattern_full : Prop := ∀ s, accepts Gen.pat_ipv6 s = Fmt.ipv6.run s
 def c20_cidrv6_pattern_full : Prop := ∀ s, accepts Gen.pat_cidrv6 s = Fmt.cidrv6.run s
 
-/-- on every string without '.' and '%' the exported pattern accepts exactly the RFC 4291 addresses -/
-theorem c20_ipv6_pattern_partial : ∀ s, avoids [46, 37] s = true → accepts Gen.pat_ipv6 s = Fmt.ipv6.run s := fun s hs =>
-  (bisim_sound_R_full _ _ _ _ Gen.cert_ipv6_partial_ok s hs).trans (ipv6_hex_quot s (avoids_dot hs)).symm
-theorem c20_cidrv6_pattern_partial : ∀ s, avoids [46, 37] s = true → accepts Gen.pat_cidrv6 s = Fmt.cidrv6.run s := fun s hs =>
-  (bisim_sound_R_full _ _ _ _ Gen.cert_cidrv6_partial_ok s hs).trans (cidrv6_hex_quot s (avoids_dot hs)).symm
+-- `c20_ipv6_pattern_partial`, `c20_cidrv6_pattern_partial` (strings without '.' and '%') are corollaries of the theorems with the
+-- dotted-quad excluded region: Proofs/C20V6Dot.lean
 
 example : avoids [46, 37] (b! "2001:db8::8a2e:370:7334") = true ∧ Fmt.ipv6.run (b! "2001:db8::8a2e:370:7334") = true ∧
     Fmt.ipv6.run (b! "1:2:3:4:5:6:7:8") = true ∧ Fmt.ipv6.run (b! "1:2:3:4:5:6:7::") = true ∧ Fmt.ipv6.run (b! "::") = true ∧
